@@ -566,6 +566,9 @@ func (pf *Portfolio) check(asserts []*Term, vars []*Term) QueryResult {
 				intScript = txt
 				order = []attempt{{"z3new", true}, {"cvc5", true}, {"cvc5int", false}, {"z3new", false}}
 			} else {
+				if slowLog {
+					fmt.Fprintln(os.Stderr, "intenc failed:", why)
+				}
 				pf.stats.mu.Lock()
 				pf.stats.IntEncFail++
 				if len(pf.stats.IntEncWhy) < 5 {
@@ -655,8 +658,8 @@ done:
 	}
 	if best.Status != Unknown && pf.crossCheck && forceSolver == "" {
 		// ask a different back end for a second opinion (bounded)
-		other := "cvc5int"
-		if best.Solver == "cvc5int" {
+		other := "cvc5"
+		if best.Solver == "cvc5int" || best.Solver == "cvc5" {
 			other = "z3new"
 		}
 		if strings.HasSuffix(best.Solver, "/int") {
@@ -664,7 +667,7 @@ done:
 		}
 		if p := pf.get(other); p != nil {
 			c := make(chan QueryResult, 1)
-			go func() { c <- p.query(asserts, nil, 60000) }()
+			go func() { c <- p.query(asserts, nil, 30000) }()
 			select {
 			case r2 := <-c:
 				pf.stats.add(r2)
@@ -690,7 +693,7 @@ done:
 					}
 					best.Status = Unknown
 				}
-			case <-time.After(65 * time.Second):
+			case <-time.After(35 * time.Second):
 				p.kill()
 			}
 		}
